@@ -42,6 +42,70 @@ def banned_list(repo: Repo, rel: str) -> Set[str]:
     return {e.value for e in node.value.elts if isinstance(e, ast.Constant)}
 
 
+def reserved_names(repo: Repo, rel: str, ci: ClassInfo, noret):
+    """The names `__setattr__` refuses as reserved, and the test that refuses them (as text) — for the two ways of
+    keeping them: a module-level list (`key in _banned`), or a module-level predicate over the key whose returns are
+    membership tests in such lists and in the instance's own attribute dict (`vars(x)` / `x.__dict__`)."""
+    sf = repo.file(rel)
+    sa = ci.methods["__setattr__"]
+
+    def list_consts(name: str) -> Optional[Set[str]]:
+        node = sf.defs.get(name)
+        if isinstance(node, (ast.Assign, ast.AnnAssign)) and isinstance(node.value, (ast.List, ast.Tuple, ast.Set)) and all(isinstance(e, ast.Constant) for e in node.value.elts):
+            return {e.value for e in node.value.elts}
+        return None
+
+    def own_attrs() -> Set[str]:
+        out = set()
+        for c in repo.mro(ci):
+            for m in c.methods.values():
+                if m.name in ("__init__", "__post_init__") and m.node.args.args:
+                    sn = m.node.args.args[0].arg
+                    out |= {n.attr for n in ast.walk(m.node) if isinstance(n, ast.Attribute) and isinstance(n.ctx, ast.Store) and isinstance(n.value, ast.Name) and n.value.id == sn}
+        return out
+
+    def membership(t: ast.AST, kv: str) -> Optional[Set[str]]:
+        if isinstance(t, ast.BoolOp) and isinstance(t.op, ast.Or):
+            parts = [membership(v, kv) for v in t.values]
+            return None if any(p is None for p in parts) else set().union(*parts)
+        if isinstance(t, ast.Compare) and len(t.ops) == 1 and isinstance(t.ops[0], ast.In) and ast.unparse(t.left) == kv:
+            c = t.comparators[0]
+            if isinstance(c, ast.Name):
+                return list_consts(c.id)
+            if isinstance(c, (ast.List, ast.Tuple, ast.Set)) and all(isinstance(e, ast.Constant) for e in c.elts):
+                return {e.value for e in c.elts}
+            if (isinstance(c, ast.Call) and isinstance(c.func, ast.Name) and c.func.id == "vars" and len(c.args) == 1) or (isinstance(c, ast.Attribute) and c.attr == "__dict__"):
+                return own_attrs()
+        if isinstance(t, ast.Constant) and t.value is False:
+            return set()
+        return None
+
+    for n in au.walk_no_nested(sa.node):
+        if not isinstance(n, ast.If) or au.raises(n.body, noret) == au.raises(n.orelse, noret):
+            continue
+        t = n.test
+        if isinstance(t, ast.UnaryOp) and isinstance(t.op, ast.Not):
+            t = t.operand
+        direct = membership(t, "key")
+        if direct is not None and len(direct) >= 3:
+            return direct, ast.unparse(t)
+        if isinstance(t, ast.Call) and isinstance(t.func, ast.Name) and any(isinstance(a, ast.Name) and a.id == "key" for a in t.args):
+            pf = repo.find_func(rel, t.func.id)
+            if pf is None:
+                continue
+            kv = pf.node.args.args[[i for i, a in enumerate(t.args) if isinstance(a, ast.Name) and a.id == "key"][0]].arg
+            acc: Set[str] = set()
+            for r_ in shared.returns_of(pf.node):
+                for v, _c in shared.alternatives(pf.node, r_.value, shared.path_conditions(pf.node, r_), at=r_):
+                    got = membership(v, kv)
+                    if got is None:
+                        raise AnalysisError(f"idiom-unknown: {pf.site} returns `{ast.unparse(v)[:60]}`: not a membership test in fixed lists or the instance's attributes")
+                    acc |= got
+            if len(acc) >= 3:
+                return acc, ast.unparse(t)
+    raise AnalysisError(f"anchor-vanished: `_banned` list in {rel}")
+
+
 def check(repo: Repo, R) -> None:
     from .shared import precedes as shared_before
 
@@ -132,7 +196,7 @@ def check(repo: Repo, R) -> None:
 
         # ---- 2 reserved names complete
         rule = "C18.2-reserved-names-complete"
-        banned = banned_list(repo, sp["rel"])
+        banned, banned_test = reserved_names(repo, sp["rel"], ci, noret)
         public = {a for a in shared.instance_attrs(repo, ci) if not a.startswith("_")}
         need = public - sp["special"]
         missing = sorted(need - banned)
@@ -140,15 +204,26 @@ def check(repo: Repo, R) -> None:
                 f"names that normal attribute lookup resolves on a {cls}: {sorted(public)}; reserved: {sorted(banned)} + special-cased {sorted(sp['special'])}" + (f"; NOT RESERVED: {missing}" if missing else ""),
                 why=f"`x.{missing[0] if missing else 'n'} = Signal()` stores an HDL attribute that attribute access never returns (the class attribute wins): get(n) and getattr disagree")
         sa = ci.methods["__setattr__"]
-        g = c02.has_guard(sa, lambda t: ast.unparse(t) == "key in _banned", noret)
+        g = c02.has_guard(sa, lambda t: ast.unparse(t) == banned_test, noret)
         R.check(g is not None, rule, key_of(sa, "banned-guard"), sa.site, f"{cls}.__setattr__ rejects reserved names: {g is not None}", why="reserved names can be overwritten")
         deco = repo.func(sp["rel"], sp["deco"])
-        dg = any(isinstance(n, ast.If) and isinstance(n.test, ast.Compare) and len(n.test.ops) == 1 and isinstance(n.test.ops[0], ast.In) and ast.unparse(n.test.left) == "key"
+        dg = any(isinstance(n, ast.If) and isinstance(n.test, ast.Call) and isinstance(banned_test, str) and isinstance(n.test.func, ast.Name) and banned_test.startswith(n.test.func.id + "(") and au.raises(n.body, noret) for n in au.walk_no_nested(deco.node)) or any(isinstance(n, ast.If) and isinstance(n.test, ast.Compare) and len(n.test.ops) == 1 and isinstance(n.test.ops[0], ast.In) and ast.unparse(n.test.left) == "key"
                  and (ast.unparse(n.test.comparators[0]) in ("_banned", "protected_names") or isinstance(n.test.comparators[0], (ast.List, ast.Tuple, ast.Set))) and au.raises(n.body, noret) for n in au.walk_no_nested(deco.node))
         via_setattr = bool(pat.find(f"setattr({sp['deco']}, key, val)", deco.node))
         R.check(dg and via_setattr, rule, key_of(deco), deco.site,
                 f"@{sp['deco']} rejects reserved field names ({dg}) and adds every HDL attribute through setattr, i.e. the same path as procedural definition ({via_setattr})",
                 why="a class-style definition differs from the equivalent procedural one")
+        # the fields the decorator treats specially are exactly the documented names: every other key takes the
+        # procedural path (setattr under its own name, or forgotten)
+        for c_ in au.calls_in(deco.node):
+            if isinstance(c_.func, ast.Name) and c_.func.id == "setattr" and len(c_.args) == 3 and isinstance(c_.args[1], ast.Constant):
+                (pos_, ks_), opq_ = shared.key_tests(deco.node, c_, "key")
+                ks_ = {k for k in ks_ if not str(k).startswith("@")}
+                doc_ = {c_.args[1].value, c_.args[1].value.capitalize()}
+                ok_ = pos_ and not opq_ and ks_ <= doc_
+                R.check(ok_, rule, key_of(deco, f"special-field-{c_.args[1].value}"), deco.at(c_),
+                        f"@{sp['deco']} diverts a class-body field to `{c_.args[1].value}` exactly when it is named one of {sorted(doc_)}: " + (f"names {sorted(ks_)}" if pos_ and not opq_ else f"decided by {opq_ or 'no comparison with fixed names'}"),
+                        why=f"a field whose name merely resembles `{c_.args[1].value}` (another capitalisation) is taken for it: the class body fails or sets it, the procedural definition stores a Signal")
 
         # ---- 3 sibling agreement
         rule = "C18.3-module-bundle-siblings"
